@@ -35,6 +35,7 @@ package cmds
 // queried target, depending on --transitive, and what is printed is the filtered list. (DepsCmd.Run is cmds.init$5,
 // RDepsCmd.Run is cmds.init$11.)
 //@ func init$5(cmd, args) ()
+//@   before_call StringToTargetTypeSelection#1 [filter_from_its_own_flag] arg1 == depsOptions.targetType
 //@   before_call FilterNodes#1 [direct_dependencies_are_edges] !depsOptions.transitive ==> (forall j int :: {arg1[j]} 0 <= j && j < len(arg1) ==> edge(graph, arg1[j], target))
 //@   before_call FilterNodes#1 [dependencies_of_the_queried_target] has(graph.nodes, targetLabel) && target == nodeAt(graph, targetLabel) &&
 //@        (depsOptions.transitive ==> (forall a model.BuildNode :: {reach(graph, a, target)} reach(graph, a, target) ==> inNodes(arg1, a)) && (forall i int :: {arg1[i]} 0 <= i && i < len(arg1) ==> reach(graph, arg1[i], target)) && noDup(arg1)) &&
@@ -42,6 +43,7 @@ package cmds
 //@   before_call PrintSortedLabels#1 [prints_the_filtered_list] arg1 == filteredDeps
 
 //@ func init$11(cmd, args) ()
+//@   before_call StringToTargetTypeSelection#1 [filter_from_its_own_flag] arg1 == rDepsOptions.targetType
 //@   before_call FilterNodes#1 [direct_dependants_are_edges] !rDepsOptions.transitive ==> (forall j int :: {arg1[j]} 0 <= j && j < len(arg1) ==> edge(graph, target, arg1[j]))
 //@   before_call FilterNodes#1 [dependants_of_the_queried_target] has(graph.nodes, targetLabel) && target == nodeAt(graph, targetLabel) &&
 //@        (rDepsOptions.transitive ==> (forall a model.BuildNode :: {reach(graph, target, a)} reach(graph, target, a) ==> inNodes(arg1, a)) && (forall i int :: {arg1[i]} 0 <= i && i < len(arg1) ==> reach(graph, target, arg1[i])) && noDup(arg1)) &&
